@@ -47,7 +47,7 @@ CLAIMED = {
         technique="Coq proof (fold/rev_ind 'last match wins' refinement, calendar arithmetic) + correspondence",
     ),
     "C12": dict(
-        text="Coq theorems (all lengths, missing patterns, both check types, with/without test_period, all min_obs/min_period, all thresholds): the operational model of attenuated_signal_test equals the decision list FAIL (spread below fail) > SUSPECT (below suspect) > GOOD, UNKNOWN when the window holds too few observations or the spread is undefined, MISSING for a missing point; trailing window (t-P, t]; whole-series mode unconditional (empty series included); std compared through the variance (soundness lemma); unknown check_type rejected. Rolling range with a missing value inside the window is refuted in Coq and reported as known finding F19. Partial: pandas rolling semantics modelled.",
+        text="Coq theorems (all lengths, missing patterns, both check types, with/without test_period, all min_obs/min_period, all thresholds): the operational model of attenuated_signal_test equals the decision list FAIL (spread below fail) > SUSPECT (below suspect) > GOOD, UNKNOWN when the window holds too few observations or the spread is undefined, MISSING for a missing point; trailing window (t-P, t]; whole-series mode unconditional (empty series included); std compared through the variance (soundness lemma); unknown check_type rejected. The rolling instance holds for EVERY placement of missing values (F19 - rolling range with a missing value in the window -, F24 - min_period with sub-second sampling - were found by this check and repaired); fractional test periods through the time-scaling relation. Partial: pandas rolling semantics modelled.",
         design_ref="DESIGN.md §8 C12",
         technique="Coq proof (refinement with exact rational variance/range, window characterisation) + correspondence",
     ),
